@@ -132,6 +132,16 @@ async fn observe_all(s: &mut dyn Storage) -> Vec<Res> {
     v
 }
 
+/// Canonical text of an observation (operations carry hash maps whose print order varies).
+fn canon_obs(v: &[Res]) -> Vec<String> {
+    v.iter()
+        .map(|r| match r {
+            Res::Ops(o) => format!("Ops[{}]", o.iter().map(crate::world::replicas::op_str).collect::<Vec<_>>().join("; ")),
+            other => format!("{other:?}"),
+        })
+        .collect()
+}
+
 fn wipe(dir: &Path) {
     let con = rusqlite::Connection::open(dir.join("taskchampion.sqlite3")).expect("open for wipe");
     con.busy_timeout(std::time::Duration::from_secs(5)).unwrap();
@@ -169,7 +179,7 @@ impl Drop for Pair {
 
 /// Execute a script on both storages in lock step. Returns (non-trivial, calls made).
 pub async fn run_script(p: &mut Pair, script: &[Call]) -> Result<(bool, usize), String> {
-    run_script_opt(p, script, true).await
+    run_script_opt(p, script, true, 0).await
 }
 
 /// Persistence: close and re-open SQLite; nothing may change and the in-memory store still agrees.
@@ -187,7 +197,9 @@ async fn persistence_check(p: &mut Pair, script: &[Call]) -> Result<(), String> 
     Ok(())
 }
 
-pub async fn run_script_opt(p: &mut Pair, script: &[Call], persist: bool) -> Result<(bool, usize), String> {
+/// `observe_from`: transactions that end before this script position are not followed by the
+/// full visibility observation (their path was observed when it was first explored).
+pub async fn run_script_opt(p: &mut Pair, script: &[Call], persist: bool, observe_from: usize) -> Result<(bool, usize), String> {
     let mut i = 0;
     let mut made = 0;
     let mut wrote = false;
@@ -249,6 +261,9 @@ pub async fn run_script_opt(p: &mut Pair, script: &[Call], persist: bool) -> Res
             }
         }
         // visibility after commit / abandonment
+        if i <= observe_from && i < script.len() {
+            continue;
+        }
         let a = observe_all(&mut p.mem).await;
         let b = observe_all(p.sql.as_mut().unwrap()).await;
         if a != b {
@@ -542,6 +557,7 @@ fn txn_graph(rep: &Report, max_depth: usize) {
         let jobs: Vec<(usize, usize)> = (0..frontier.len()).flat_map(|i| (0..alpha.len()).map(move |m| (i, m))).collect();
         let results: Vec<(usize, usize, Result<(u128, usize), String>)> = jobs
             .par_iter()
+            .filter(|_| !rep.over_budget())
             .map(|&(i, m)| {
                 let script: Vec<Call> = frontier[i].iter().chain(std::iter::once(&m)).flat_map(|&k| alpha[k].iter().copied()).collect();
                 let r = PAIR.with(|cell| {
@@ -553,9 +569,10 @@ fn txn_graph(rep: &Report, max_depth: usize) {
                         let p = slot.as_mut().unwrap();
                         p.reset();
                         // the path is replayed without the closing re-open; every NEW state gets it
-                        let r = match run_script_opt(p, &script, false).await {
+                        let prefix_len: usize = frontier[i].iter().map(|&k| alpha[k].len()).sum();
+                        let r = match run_script_opt(p, &script, false, prefix_len).await {
                             Ok((_, n)) => {
-                                let key = crate::util::h128(&format!("{:?}", observe_all(&mut p.mem).await));
+                                let key = crate::util::h128(&canon_obs(&observe_all(&mut p.mem).await));
                                 if seen.contains(&key) {
                                     Ok((key, n))
                                 } else {
@@ -593,6 +610,11 @@ fn txn_graph(rep: &Report, max_depth: usize) {
                 }
             }
         }
+        if rep.over_budget() {
+            // the level was cut short: it does not count as completed
+            capped = true;
+            break;
+        }
         depth_done = depth;
         if rep.n_violations() > 0 || next.is_empty() {
             break;
@@ -612,7 +634,7 @@ fn txn_graph(rep: &Report, max_depth: usize) {
 pub fn run(opts: &Opts) -> i32 {
     let rep = Report::new("C16", "model_checking", opts);
     rep.set("exhaustive", true);
-    rep.set("rule", "every script of exactly d StorageTxn calls over an alphabet of 24 (thorough 38) calls (tasks, operations, base version, working set, sync_complete, is_empty, commit, abandon, close+re-open) with 2 uuids and non-ASCII/empty strings, executed in lock step on InMemoryStorage and SqliteStorage; every return value compared (collections as sorted sets, errors as 'is error'), full observation compared after every transaction end and after close + re-open; the graph of storage states reachable by sequences of up to 6 (thorough 9) whole transactions from an alphabet of 16 (create/update/delete with and without the matching operation, sync_complete with and without a new base version, working-set edits, undo-style removals, an abandoned transaction, close+re-open), states identified by their full observation; the same after a prefix of 25 operations and 12 working-set entries; the same on databases created by raw SQL under schemas 0.8, 0.9, (0,1), (0,2) with pre-loaded content; every mutator and commit on a read-only handle; non-trivial = scripts that abandon a transaction containing writes after an earlier committed write, or re-open after a committed write");
+    rep.set("rule", "every script of exactly d StorageTxn calls over an alphabet of 24 (thorough 38) calls (tasks, operations, base version, working set, sync_complete, is_empty, commit, abandon, close+re-open) with 2 uuids and non-ASCII/empty strings, executed in lock step on InMemoryStorage and SqliteStorage; every return value compared (collections as sorted sets, errors as 'is error'), full observation compared after every transaction end and after close + re-open; the graph of storage states reachable by sequences of up to 4 (thorough 6) whole transactions from an alphabet of 16 (create/update/delete with and without the matching operation, sync_complete with and without a new base version, working-set edits, undo-style removals, an abandoned transaction, close+re-open), states identified by their full observation; the same after a prefix of 25 operations and 12 working-set entries; the same on databases created by raw SQL under schemas 0.8, 0.9, (0,1), (0,2) with pre-loaded content; every mutator and commit on a read-only handle; non-trivial = scripts that abandon a transaction containing writes after an earlier committed write, or re-open after a committed write");
     rep.assume("contract restrictions: set_working_set_item only with 1 <= index < current length; no call after commit and no second commit in one transaction; error messages are not compared");
     let q = opts.tier == Tier::Quick;
     run_scripts(&rep, "reduced-alphabet", scripts(&alphabet(false), if q { 3 } else { 4 }));
@@ -633,7 +655,7 @@ pub fn run(opts: &Opts) -> i32 {
     many.push(Call::Commit);
     let tails = scripts(&alphabet(true), if q { 1 } else { 2 });
     run_scripts(&rep, "many-rows-prefix", tails.into_iter().map(|t| many.iter().cloned().chain(t).chain([Call::Commit, Call::Reopen, Call::Unsynced, Call::GetWs, Call::TaskOps(1)]).collect()).collect());
-    txn_graph(&rep, if q { 6 } else { 9 });
+    txn_graph(&rep, if q { 4 } else { 6 });
     legacy(&rep);
     read_only(&rep);
     rep.finish()
